@@ -279,21 +279,33 @@ Proof.
   all: cbn [o_th o_spawn o_sh o_gev o_wake oget wake_add apply_gevs fold_left apply_gev] in *.
   all: rewrite ?held_eq in A1; rewrite ?inuser_eq in A2; rewrite ?drain_eq in A3; rewrite ?sentfl_eq in A4; rewrite ?unsent_eq in A5.
   all: unfold L5 in Lth.
+  all: try match goal with
+       | E : pc _ = SbIf1 |- _ => destruct (l_ok th) eqn:Eok; destruct (is_err (l_err th)) eqn:Eer; destruct (l_nil th) eqn:Enil
+       | E : pc _ = SbIf2 |- _ => destruct (l_ok th) eqn:Eok; destruct (is_err (l_err th)) eqn:Eer; destruct (l_nil th) eqn:Enil
+       | E : pc _ = SbRet1 |- _ => destruct (l_ok th) eqn:Eok; destruct (is_err (l_err th)) eqn:Eer; destruct (l_nil th) eqn:Enil
+       | E : pc _ = SbRet2 |- _ => destruct (l_ok th) eqn:Eok; destruct (is_err (l_err th)) eqn:Eer; destruct (l_nil th) eqn:Enil
+       end.
   all: rewrite ?Epc in *.
   all: cbn in A1, A2, A3, A4, A5, Lth.
+  all: try (exfalso; clear - Lth Eok Eer Enil; cbn in *; intuition (try congruence; try discriminate);
+            match goal with H : l_err _ = PENone |- _ => rewrite H in *; cbn in *; discriminate end).
   all: unfold idz, tid_of, ids, wrap_task in *.
-  all: cbn [tk_id] in *.
+  all: rewrite ?map_app in A3; rewrite ?cnt_app in A3.
+  all: cbn [tk_id map cnt] in *.
   all: constructor; rewrite ?Fsh, ?Fnt, ?Fgh;
        cbn [g_sent g_started g_done g_returned g_acc g_rej g_starts g_shuts g_now g_grace g_began g_shut
             gs_sent gs_started gs_done gs_returned gs_acc gs_rej gs_starts gs_shuts gs_now gs_grace gs_began gs_shut];
-       shcbn; unfold ids in *; rewrite ?cnt_app, ?map_app; cbn [cnt map tk_id].
+       unfold unlock_state; repeat match goal with |- context [if pstate_eqb ?a ?b then _ else _] => destruct (pstate_eqb a b) end; shcbn; unfold ids in *; rewrite ?map_app, ?cnt_app; cbn [cnt map tk_id].
   all: try match goal with
        | |- tall L5 _ =>
          eapply apply_out_tall; [apply wo_L5 | exact XL | exact Ha | | ];
-         [ cbn [o_th]; intros x E; first [discriminate E | injection E as <-; unfold L5; cbn; clear - Lth; intuition (try congruence; try discriminate; auto)]
+         [ cbn [o_th]; intros x E; first [discriminate E | injection E as <-; unfold L5; cbn; rewrite ?Eok, ?Eer, ?Enil; cbn; intuition (try congruence; try discriminate; auto)]
          | cbn [o_spawn]; intros x E; first [discriminate E | injection E as <-; unfold L5; cbn; auto] ]
        end.
   all: try clear Ha; try clear XL; try clear Hl.
+  all: repeat match goal with H : s_q _ = _ |- _ => rewrite H in *; clear H end.
+  all: try match type of Lth with l_acc _ = [] /\ _ => let Hacc := fresh "Hacc" in destruct Lth as [Hacc Lth]; rewrite Hacc in * end.
+  all: cbn [map cnt tk_id app] in *.
   all: repeat match goal with
        | H : context [if ?b then _ else _] |- _ => let E := fresh "Eb" in destruct b eqn:E
        | |- context [if ?b then _ else _] => let E := fresh "Eb" in destruct b eqn:E
@@ -302,78 +314,3 @@ Proof.
   all: lia.
 Qed.
 
-(* ---------------------------------------------------------------- the other events *)
-Lemma inv3_update i c t th th' :
-  Inv3 i c -> lookup t (c_thr c) = Some th ->
-  held i th' = held i th -> inuser i th' = inuser i th -> drain i th' = drain i th ->
-  sentfl i th' = sentfl i th -> unsent i th' = unsent i th -> L5 th' ->
-  Inv3 i (with_thr c (update t th' (c_thr c))).
-Proof.
-  intros HK Hl E1 E2 E3 E4 E5 E6.
-  eapply (inv3_frame i c t th (Some th') None None (c_sh c) _ _ WkNone [] HK Hl (apply_out_update c t th'));
-    cbn [oget oall]; auto; lia.
-Qed.
-
-Lemma inv3_init i P : Inv3 i (pinit P).
-Proof. constructor; cbn; try reflexivity. constructor. Qed.
-
-Lemma cnt_ltb_step (i n : nat) :
-  (if Nat.ltb i (S n) then 1 else 0) = (if Nat.ltb i n then 1 else 0) + (if Nat.eqb n i then 1 else 0).
-Proof.
-  destruct (Nat.ltb i (S n)) eqn:E1, (Nat.ltb i n) eqn:E2, (Nat.eqb n i) eqn:E3;
-    try apply Nat.ltb_lt in E1; try apply Nat.ltb_ge in E1; try apply Nat.ltb_lt in E2; try apply Nat.ltb_ge in E2;
-    try apply Nat.eqb_eq in E3; try apply Nat.eqb_neq in E3; lia.
-Qed.
-
-Lemma inv3_step i c e c' : Inv3 i c -> pstep_cfg c e = Some c' -> Inv3 i c'.
-Proof.
-  intros HK Hs. apply pstep_cfg_inv in Hs. destruct e as [t op|t ch|t|t|t].
-  - (* PCall *)
-    destruct Hs as (Hl & Hb & -> & Hid).
-    destruct HK as [X1 X2 X3 X4 XL].
-    constructor; cbn [c_par c_sh c_thr c_gh c_ntask]; rewrite ?tsum_spawn.
-    + assert (held i (enter (c_sh c) op) = 0 /\ drain i (enter (c_sh c) op) = 0) as [-> ->]
-        by (destruct op; split; reflexivity). lia.
-    + assert (inuser i (enter (c_sh c) op) = 0) as -> by (destruct op; reflexivity). lia.
-    + destruct op as [id pp| | | |]; cbn in Hid; subst;
-        rewrite ?cnt_ltb_step; unfold unsent, sentfl, sentp, enter; cbn; unfold idz; cbn; lia.
-    + assert (sentfl i (enter (c_sh c) op) = 0) as -> by (destruct op; reflexivity). lia.
-    + apply tall_spawn; [exact XL|]. unfold L5. destruct op; cbn; auto.
-  - (* PStep *)
-    destruct Hs as (th & o & obs & Hl & Hp & Ha). eapply (inv3_step_pstep (c_par c)); eauto.
-  - (* PCancel *)
-    destruct Hs as (th & Hl & _ & ->).
-    apply (inv3_update i c t th); auto.
-    exact (tall_lookup _ _ _ _ (x_loc _ _ HK) Hl).
-  - (* PFire *)
-    destruct Hs as (th & Hl & _ & ->).
-    pose proof (tall_lookup _ _ _ _ (x_loc _ _ HK) Hl) as Lth.
-    destruct (is_parked th) eqn:Ep.
-    + apply is_parked_pc in Ep. apply (inv3_update i c t th); auto;
-        try (unfold held, inuser, drain, sentfl, unsent, sentp; cbn; rewrite Ep; reflexivity).
-      unfold L5 in *. rewrite Ep in Lth. cbn. tauto.
-    + apply (inv3_update i c t th); auto.
-  - (* PFinish *)
-    destruct Hs as (th & obs & Hl & Epc & Ha).
-    destruct HK as [X1 X2 X3 X4 XL].
-    pose proof (apply_out_tsum2 (held i) (idz i) c t th _ c' obs (wi2_held i) Hl Ha) as A1.
-    pose proof (apply_out_tsum (inuser i) c t th _ c' obs (wi_inuser i) Hl Ha) as A2.
-    pose proof (apply_out_tsum (drain i) c t th _ c' obs (wi_drain i) Hl Ha) as A3.
-    pose proof (apply_out_tsum (sentfl i) c t th _ c' obs (wi_sentfl i) Hl Ha) as A4.
-    pose proof (apply_out_tsum (unsent i) c t th _ c' obs (wi_unsent i) Hl Ha) as A5.
-    destruct (apply_out_fields c t _ c' obs Ha) as (_ & Fsh & Fnt & Fgh & _).
-    pose proof (tall_lookup _ _ _ _ XL Hl) as Lth.
-    cbn [o_th o_spawn o_sh o_gev o_wake oget wake_add apply_gevs fold_left apply_gev] in *.
-    rewrite ?held_eq in A1; rewrite ?inuser_eq in A2; rewrite ?drain_eq in A3; rewrite ?sentfl_eq in A4; rewrite ?unsent_eq in A5.
-    rewrite ?Epc in *. cbn in A1, A2, A3, A4, A5.
-    constructor; rewrite ?Fsh, ?Fnt, ?Fgh; cbn [g_sent g_started g_done g_returned g_acc g_rej gs_done];
-      rewrite ?cnt_app; cbn [cnt]; unfold idz, tid_of in *; try lia.
-    eapply apply_out_tall; [apply wo_L5|exact XL|exact Ha| |].
-    + cbn [o_th]. intros x E; injection E as <-. unfold L5 in *. rewrite Epc in Lth. cbn. tauto.
-    + cbn [o_spawn]. intros x E; discriminate E.
-Qed.
-
-Theorem inv3_reach P i c : preach P c -> Inv3 i c.
-Proof.
-  revert c. apply (preach_ind P (Inv3 i)); [apply inv3_init|]. intros c0 e c1 H Hs. eapply inv3_step; eauto.
-Qed.
